@@ -734,6 +734,21 @@ func (w *world) mutations(rt *rapid.T) []mutation {
 			}
 		}
 	}
+	// Two holders of one name that cover disjoint (or the same) networks. service.go: a client name
+	// must differ from every other client name, a group name from every client name and every other
+	// group name - whatever networks the holders are enabled for.
+	for _, a := range holderKinds {
+		for _, b := range holderKinds {
+			if w.canHold(a) && w.canHold(b) {
+				add("duplicate", "twin-"+a+"-"+b, func() { w.addHolder(a, "twin"); w.addHolder(b, "twin") })
+			}
+		}
+	}
+	if w.clientsMode != 0 {
+		// the automatically added client is called "direct"
+		add("duplicate", "tcponly-group-named-direct", func() { w.addHolder("gt", "direct") })
+		add("duplicate", "udponly-group-named-direct", func() { w.addHolder("gu", "direct") })
+	}
 	for _, g := range w.groups {
 		add("duplicate", "dup-group", func() { d := *g; w.groups = append(w.groups, &d) })
 		if len(w.clients) > 0 {
@@ -783,6 +798,54 @@ func (w *world) mutations(rt *rapid.T) []mutation {
 		add("duplicate-set", "dup-prefix-set", func() { c := *d; w.prefixSets = append(w.prefixSets, &c) })
 	}
 	return ms
+}
+
+// holderKinds: the four kinds of name holders that cover a single network.
+var holderKinds = []string{"ct", "cu", "gt", "gu"} // TCP-only client, UDP-only client, TCP-only group, UDP-only group
+
+// member returns an existing client usable as the member of a single-network group.
+func (w *world) member(udp bool) string {
+	tcpM, udpM, _, _ := w.clientMaps()
+	m := tcpM
+	if udp {
+		m = udpM
+	}
+	names := make([]string, 0, len(m))
+	for n := range m {
+		names = append(names, n)
+	}
+	sort.Strings(names)
+	if len(names) == 0 {
+		return ""
+	}
+	return names[0]
+}
+
+func (w *world) canHold(kind string) bool {
+	switch kind {
+	case "ct", "cu":
+		return w.clientsMode == 0 && len(w.clients) > 0
+	case "gt":
+		return w.member(false) != ""
+	default:
+		return w.member(true) != ""
+	}
+}
+
+// addHolder adds a single-network client or client group called name.
+func (w *world) addHolder(kind, name string) {
+	switch kind {
+	case "ct":
+		w.clients = append(w.clients, &cli{name: name, proto: "direct", tcp: true, toServer: -1, f: fields{}})
+	case "cu":
+		w.clients = append(w.clients, &cli{name: name, proto: "direct", udp: true, toServer: -1, mtu: intp(1500), f: fields{}})
+	case "gt":
+		m := w.member(false)
+		w.groups = append(w.groups, &grp{name: name, tcp: &sel{policy: "round-robin", clients: []string{m}}})
+	case "gu":
+		m := w.member(true)
+		w.groups = append(w.groups, &grp{name: name, udp: &sel{policy: "random", clients: []string{m}}})
+	}
 }
 
 // rename updates references after a client group was renamed.
